@@ -51,7 +51,10 @@ func c06(p *core.Program, r *core.Report) {
 	r.Rule("R5", "locks released on reject: every Lock/RLock of a fragment taken in a function that reaches a decoder is released by defer (so a recovered panic leaves no lock held)")
 	r.Rule("R7", "payload extents are checked before input is reinterpreted: in package roaring every cast unsafe.Pointer(&data[off]) of a byte slice on the decode path is reached only on paths that passed a comparison between len(data) and an extent -- a sum that contains the offset (off + size) -- so neither the cast nor the unchecked slice built from it can reach past the data; a test of the bare offset does not count")
 	r.Rule("R8", "sizes computed from input counts do not wrap: on the decode path a product or sum of an input count that is compared with len(data) is computed in 64 bits (or in int after widening), never in the count's own 16- or 32-bit type")
+	r.Rule("R9", "computed slice bounds are checked: on the roaring decode path a slice expression on a byte slice whose bound is a sum (offset + size from the input) is reached only after a comparison of a sum mentioning one of the bound's variables with len(<that slice>); a later plain assignment to such a variable discards the check")
+	r.Rule("R10", "extent sums cannot wrap: a 64-bit unsigned quantity from the input that enters the sum of an extent check was bounded from above on every path to the check by a comparison not involving len")
 	c06Extents(p, r)
+	c06Slices(p, r)
 	r.NotDecided = "that counts inside the payload are consistent with the payload itself (a cardinality that disagrees with the runs), that a rejected multi-container import leaves no partial change (the source itself notes it may)"
 	pk, rp, pp, gp := p.Pkg(""), p.Pkg("roaring"), p.Pkg("encoding/proto"), p.Pkg("gossip")
 	if pk == nil || rp == nil || pp == nil || gp == nil {
